@@ -50,6 +50,7 @@ var accelShapes = []string{
 	`(?:aa|ab|ac|ad|ba|bb|bc|bd|ca|cb|cc|cd|da|db|dc|dd)z`, `(?:aa|ab|ac|ad|ba|bb|bc|bd|ca|cb|cc|cd|da|db|dc|dd|xa)z`, `(?i:aa|ab|ac|ad|ba|bb|bc|bd|ca|cb|cc|cd|da|db|dc|dd|xa)z`,
 	`(?:abcdefgh|abcdefgx)y`, `(?:abcdefghij|abcdefghix)k`, `(?i)abcdefghijk`, `(?i:abcdefghi|abcdefghx)z`, `.abcdefgh`, `.abcdefghijk`, `[ab]abcdefghi\d`, `\w\dabcdefghij`,
 	`[ab][cd][xy][ab]z`, `[ab][cd][xy][ab][cd]`, `(?:(?:(?:(?:(?:(?:(?:(?:(?:(?:(?:(?:(?:(?:(?:(?:(?:(?:(?:(?:(?:(?:(?:(?:(?:(?:(?:(?:(?:(?:(?:(?:(?:(?:ab))))))))))))))))))))))))))))))))))c`,
+	`.aa`, `[^x]aba`, `..abab`, `.éé`, `[ab]aa\d`, `(?i).aa`,
 	`abab`, `abca\d`, `abab\w`, `aba`, `abcab`, `(?i)abab`,
 	`[ab]{25}c`, `[ab]{21}cd`, `\w{22}x`, `[a-c]{30}`, `a{25}b`, `[a-z]+(?:@|\d+)[a-z]+(?:\.|,)[a-z]+`, `\w+(?:-|\s+)\w+(?:=|\d)\w+`, `[a-z]+(?:x|[0-9]{2})[a-z]+(?:;|y+)z`,
 	`\bab`, `\Bab`, `a{3}`, `a{2,}b`, `(?:ab){2}`, `(?:ab*){2}`, `(ab*)+c`, `[a-c]{2}d`, `é+a`, `a😀b`,
